@@ -61,9 +61,29 @@ def events(r, kind=None, base=0.0, max_n=24, span=None):
 def related_events(r, ref, base=0.0):
     """An estimate related to ``ref`` in one of the ways fixtures lack."""
     kind = r.choice(["copy", "subset", "superset", "shift", "disjoint", "jitter",
-                     "independent", "double", "half", "offbeat", "threshold"])
+                     "independent", "double", "half", "offbeat", "threshold", "runs"])
     if ref.size == 0 or kind == "independent":
         return events(r, base=base)
+    if kind == "runs" and ref.size >= 6 and float(np.min(np.diff(ref))) >= 16 / Q:
+        # runs of well-placed beats separated by badly placed ones; run lengths
+        # are drawn around 25 % of the interior beats (Goto's track criterion)
+        n = ref.size
+        quarter = max(1, (n - 2) // 4)
+        xs = []
+        i = 0
+        while i < n:
+            run = r.choice([quarter - 1, quarter, quarter, quarter + 1, quarter + 2, 1, 2])
+            for _ in range(max(0, run)):
+                if i < n:
+                    xs.append(ref[i] + r.choice([0, 0, 1, -1, 2, -2]) / Q)
+                    i += 1
+            for _ in range(r.choice([1, 1, 2])):
+                if i < n:
+                    gap = (ref[i] - ref[i - 1]) if i else (ref[1] - ref[0])
+                    off = int(gap * Q * r.choice([0.2, 0.22, -0.2, 0.3, -0.3]))
+                    xs.append(ref[i] + off / Q)
+                    i += 1
+        return _sorted_arr([x for x in xs if x >= base])
     if kind == "copy":
         return ref.copy()
     if kind == "subset":
@@ -95,6 +115,36 @@ def related_events(r, ref, base=0.0):
     if kind == "offbeat" and ref.size >= 2:
         return (ref[:-1] + ref[1:]) / 2
     return ref.copy()
+
+
+def goto_pair(r, base=5.0):
+    """(ref, est) built around Goto's track criterion: regular reference beats,
+    runs of exactly placed estimates whose length is drawn around 25 % of the
+    interior beats, delimited by estimates that are paired but just beyond the
+    correctness threshold (|error| 0.375 .. 0.4375 of the half interval)."""
+    n = r.randrange(14, 64)
+    step = 32
+    start = int(base * Q) + r.randrange(0, 32)
+    ref = [start + i * step for i in range(n)]
+    quarter = (n - 2) / 4.0
+    est = []
+    i = 0
+    first = True
+    while i < n:
+        if first:
+            run = r.choice([0, 1, 2, 3])
+            first = False
+        else:
+            run = max(0, int(quarter) + r.choice([-2, -1, 0, 0, 1, 1, 2]))
+        for _ in range(run):
+            if i < n:
+                est.append(ref[i] + (0 if r.random() < 0.85 else r.choice([1, -1])))
+                i += 1
+        for _ in range(r.choice([1, 1, 1, 2])):
+            if i < n:
+                est.append(ref[i] + r.choice([6, -6, 7, -7, 6, -6, 12]))
+                i += 1
+    return (np.array([x / Q for x in ref]), _sorted_arr([x / Q for x in est]))
 
 
 def boundaries(r, n=None, start=0, total=None, min_len=1, step=2):
@@ -234,7 +284,8 @@ def related_multipitch(r, times, frames):
             u = r.random()
             if u < 0.2:
                 continue
-            dm = r.choice([0, 0, 0, 0.25, -0.25, 0.5, -0.5, 1, -1, 12, -12, 24, 0.375])
+            dm = r.choice([0, 0, 0, 0.25, -0.25, 0.5, -0.5, 1, -1, 12, -12, 24, 0.375,
+                           0.625, -0.75, 0.875])
             h = hz * 2.0 ** (dm / 12.0)
             if 25.0 < h < 4500.0:
                 fs.append(h)
